@@ -47,7 +47,7 @@ def messages(ids, rng, ro_at=0):
 class Check:
     pid = 'C10'
     rule = ('message-ID sets of mixed digit counts (9/10/100, leading zeros, 0 and 00, neighbours above 2**53, values above 2**64) x all permutations of the supplied list '
-            '(<=6 messages exhaustively, sampled beyond) x the roCreate carrying the lowest / a middle / the highest ID x {from_strings, from_files, from_s3}; sorted(MosFile objects) as well. '
+            '(<=6 messages exhaustively, sampled beyond) x the roCreate carrying the lowest / a middle / the highest ID x {from_strings, from_files, from_s3}; sorted(MosFile objects) as well, also for objects of several running orders / classes / without roID. '
             'The messages are order sensitive (append then move the appended story). distinct by (id set, permutation class, constructor)')
 
     def matches_known(self, k, v):
@@ -109,6 +109,32 @@ class Check:
                         dis.append({'case': {'kind': 'sort', 'docs': c['docs']}, 'impl': got, 'model': str(mr), 'explained': False})
                 if len(samples) < 3:
                     samples.append({'ids': ids, 'supplied_order': [ids[k] for k in perms[-1]], 'applied_order': want_order})
+            # sorting MosFile objects that belong to different running orders (or carry a blank / no roID), of different
+            # classes: the message ID alone orders them
+            from docs import story_append as _sa, ro_delete as _rd, ready_to_air as _rta
+            for ids in id_sets:
+                rids = ['RO B', 'RO A', None, 'RO B', 'ro a', 'RO A']
+                docs_ = []
+                for k, mid in enumerate(sorted(ids, key=int)):
+                    mk = [_sa, _rd, _rta][k % 3]
+                    d = mk(mid, [gens.new_story('S%d' % k)], ro_id=rids[k % len(rids)]) if mk is _sa else mk(mid, ro_id=rids[k % len(rids)])
+                    d.find('messageID').text = mid
+                    if k % 5 == 4:
+                        d[3].remove(d[3].find('roID'))
+                    docs_.append(to_text(d))
+                for trial in range(6):
+                    order = list(range(len(docs_)))
+                    rng.shuffle(order)
+                    try:
+                        got = [o.message_id for o in sorted(MosFile.from_string(docs_[k]) for k in order)]
+                    except Exception as e:
+                        got = 'raises ' + type(e).__name__
+                    n += 1
+                    want = sorted(int(i) for i in ids)
+                    if got != want:
+                        vio.append({'what': 'sorted(MosFile objects of several running orders) gives %r, numeric message-ID order is %r' % (got, want),
+                                    'case': {'kind': 'sort', 'docs': [docs_[k] for k in order]}, 'impl': got, 'expected': want})
+                        break
         finally:
             shutil.rmtree(tmp, ignore_errors=True)
         return {'evaluations': n, 'distinct': len(sigs), 'rule': self.rule, 'samples': samples,
@@ -120,9 +146,14 @@ class Check:
             return {'violation': False, 'note': str(rep.get('detail'))}
         from mosromgr.mostypes import MosFile
         docs = case['docs']
-        got = [o.message_id for o in sorted(MosFile.from_string(t) for t in docs)]
+        try:
+            got = [o.message_id for o in sorted(MosFile.from_string(t) for t in docs)]
+        except Exception as e:
+            return {'violation': True, 'sorted': 'raises ' + type(e).__name__}
         if got != sorted(got):
             return {'violation': True, 'sorted': got}
+        if case.get('kind') == 'sort':
+            return {'violation': False, 'sorted': got}
         tmp = tempfile.mkdtemp(prefix='mosverif-c10-')
         try:
             a = impl.run_coll(docs, True, True, how=case.get('how', 'strings'), tmpdir=tmp)
